@@ -158,6 +158,17 @@ def check(world, tier):
         loopn = R.loop_nodes(fid, h)
         g = R.g
         outside = set(g.succ.keys()) - loopn
+        # the budget counts CONSECUTIVE failures: it is re-armed whenever a window has been completed, i.e. the counter is
+        # initialised inside the outer transfer loop, not once per transfer
+        if len(lp) >= 2:
+            outer_nodes = R.loop_nodes(*lp[-1])
+            init_nodes = [node for (node, wr, wp, v) in eng.writes_log if wr == info["root"] and wp == () and node not in loopn
+                          and isinstance(v, tuple) and v and v[0] == "i" and not v[1][1]]
+            rearmed = any(n_ in outer_nodes for n_ in init_nodes)
+            c.ob(rearmed, "retry-budget-not-rearmed %s" % tag,
+                 "the %s worker's retry counter is initialised once per transfer and never reset: %d failed receives anywhere in a transfer "
+                 "(not %d consecutive ones) abort it" % (tag, info["bound"], info["bound"]),
+                 sample={"region": tag, "counter initialised inside the per-window loop": rearmed})
         oe = R.recv_outcome_edges()
         kind = ("pkt", "Ack") if tag == "send" else ("pkt", "Data")
         edges = [e for e in oe.get(kind, ()) if e[0] in loopn]
